@@ -17,17 +17,17 @@ from .unescape import unescape_string
 StateFn: TypeAlias = Callable[[], Optional["StateFn"]]
 
 RE_ASSIGN_OP = re.compile(r"=")  # TODO: scan until ch?
-RE_DROP = re.compile(r"DROP")
+RE_DROP = re.compile(r"DROP(?![_a-zA-Z0-9])")
 RE_GRAMMAR_DOC = re.compile(r"//!")
-RE_IDENTIFIER = re.compile(r"[_a-zA-Z][_a-zA-Z0-9]*")
+RE_IDENTIFIER = re.compile(r"(?!PUSH)[_a-zA-Z][_a-zA-Z0-9]*")
 RE_INTEGER = re.compile(r"[0-9]+|-0*[1-9][0-9]*")
 RE_MODIFIER = re.compile(r"[_@\$!]")
 RE_NEWLINE = re.compile(r"\r?\n")
 RE_NUMBER = re.compile(r"[0-9]+")
-RE_PEEK = re.compile(r"PEEK")
-RE_PEEK_ALL = re.compile(r"PEEK_ALL")
-RE_POP = re.compile(r"POP")
-RE_POP_ALL = re.compile(r"POP_ALL")
+RE_PEEK = re.compile(r"PEEK(?![_a-zA-Z0-9])")
+RE_PEEK_ALL = re.compile(r"PEEK_ALL(?![_a-zA-Z0-9])")
+RE_POP = re.compile(r"POP(?![_a-zA-Z0-9])")
+RE_POP_ALL = re.compile(r"POP_ALL(?![_a-zA-Z0-9])")
 RE_PUSH = re.compile(r"PUSH")
 RE_PUSH_LITERAL = re.compile(r"PUSH_LITERAL")
 RE_RANGE_OP = re.compile(r"\.\.")
